@@ -330,3 +330,8 @@ mod tests {
         assert_eq!(ntps.reference_id, ReferenceId::KISS_DENY);
     }
 }
+
+// verification hook (guard: cfg(kani)); contract harnesses live outside the repository
+#[cfg(kani)]
+#[path = "/verif/kani/ntp_proto/system.rs"]
+mod verif;
